@@ -23,6 +23,7 @@ META = {
     "of a sheet refers to get_tax_sheet_name(asset, <year of the previous iteration>) at the offset that iteration returned, or is 0 for the first year; a summary sheet is "
     "created exactly when its year is first seen by this generator instance, gets one line per asset-year whose four references use get_tax_sheet_name(asset, year) of the "
     "same call, and its bookkeeping is per instance.",
+    "restated": 'artificial fee disposals carry the instant of their acquisition (C11.e); no cell shows a value left over from an earlier row',
     "not_decided": "the spreadsheet arithmetic inside the template; totals; ezodf's copy/insert behaviour.",
     "assumptions": ["sorted() of (year, list) pairs with distinct years orders by year", "ezodf Sheet.copy / insert_rows behave as documented"],
 }
